@@ -271,7 +271,19 @@ def rule_slice(ck):
                 removals.append((g, c, m.group(1)))
     drains = [(g, c) for g, c, k in removals if k == "drain"]
     others = sorted({k for g, c, k in removals if k != "drain"})
-    ck.ob("table.slice_arith", "ArrayValue::slice/removal-by-range-only", not others and len(drains) == 2, f"{len(drains)} drain calls, other removals {others}", f.loc())
+    # alternative shape: one positional range l..r kept (drain(l..r).collect(), split_off/truncate pairs are not recognised and fail closed)
+    single = None
+    if len(drains) == 1:
+        g1, c1 = drains[0]
+        t1 = _alg(g1, expr_of(g1, c1.args[1], depth=30))
+        if t1[0] == "agg" and t1[1] == "Range" and _strip_clamp(t1[2]) == "arg2" and _strip_clamp(t1[3]) in ("arg3", ("field", "arg3", ())):
+            single = t1
+    if single is not None and not others:
+        ck.ob("table.slice_arith", "ArrayValue::slice/keeps-positions-l..r", True, f"{single}", f.loc())
+        drains = []
+    elif True:
+        pass
+    ck.ob("table.slice_arith", "ArrayValue::slice/removal-by-range-only", not others and (len(drains) == 2 or single is not None), f"{len(drains)} drain calls, other removals {others}", f.loc())
     front = back = None
     for g, c in drains:
         t = _alg(g, expr_of(g, c.args[1], depth=30))
@@ -279,6 +291,8 @@ def rule_slice(ck):
             front = (g, c, t[2])
         if t[0] == "agg" and t[1] == "RangeFrom":
             back = (g, c, t[2])
+    if single is not None:
+        return _slice_rest(ck, prog)
     ok = front is not None and _strip_clamp(front[2]) == "arg2"
     ck.ob("table.slice_arith", "ArrayValue::slice/drops-first-l", ok, f"front removal ..{front[2] if front else None}", f.loc(front[1].bb) if front else f.loc(), what="slice does not drop exactly the first `l` items")
     ok = back is not None and front is not None and back[2] == ("sub", ("field", "arg3", ()), front[2]) or (back is not None and front is not None and back[2] == ("sub", "arg3", front[2]))
@@ -286,6 +300,10 @@ def rule_slice(ck):
     if front and back:
         # the two removals happen in this order (the second bound is relative to the shortened list)
         ck.ob("table.slice_arith", "ArrayValue::slice/front-removed-before-back", back[1].bb in f.reach_from([front[1].bb]) and front[1].bb not in f.reach_from([back[1].bb]), "", f.loc(back[1].bb))
+    _slice_rest(ck, prog)
+
+
+def _slice_rest(ck, prog):
     # --- PointerValue::slice
     pf = ck.anchor(PTR + "::slice")
     pfs = [pf] + [prog.fns[p] for p in prog.closures_of(pf.path)]
